@@ -224,6 +224,30 @@ func genSign(r *c.Rng) *Case {
 		}
 	}
 	k.AddUser = r.Chance(1, 4)
+	if r.Chance(1, 3) {
+		k.Via = "api"
+		if (k.Prov == "jwk" || k.Prov == "x5c") && r.Chance(1, 2) {
+			k.IDC = true
+			k.IDCN = c.Pick(r, []string{k.Sub, k.Sub, "", "other"})
+			uuidURN := "urn:uuid:6ba7b810-9dad-11d1-80b4-00c04fd430c8"
+			switch r.Intn(8) {
+			case 0, 1: // no names
+			case 2:
+				k.IDNames = []string{k.Sub}
+			case 3:
+				k.IDNames = []string{k.Sub, uuidURN}
+			case 4:
+				k.IDNames = []string{uuidURN}
+			case 5: // a foreign name: refused
+				k.IDNames = []string{k.Sub, "evil.example.com"}
+			case 6: // URIs are not compared under SignIdentityMethod; only a urn:uuid one is copied
+				k.IDNames = []string{"https://evil.example.com/x", "URN:UUID:6BA7B810-9DAD-11D1-80B4-00C04FD430C8", "urn:uuid:not-a-uuid-not-a-uuid-not-a-uuid-00"}
+			default:
+				k.IDNames = []string{"spiffe://evil/x"}
+			}
+			k.IDBadSig = r.Chance(1, 25)
+		}
+	}
 	if r.Chance(1, 6) {
 		k.ReqUD = c.Pick(r, []string{`{"principals":["root"],"type":"host","keyId":"evil"}`, `{"Principals":["root"],"KeyID":"evil","Type":"host"}`,
 			`{"extensions":{"permit-root":""},"criticalOptions":{"force-command":"id"}}`, `[1,2]`, `{`, `null`, `{"Insecure":{"CR":{"principals":["root"]}}}`})
@@ -237,6 +261,9 @@ func genPop(r *c.Rng) *Case {
 	k.Cert = Opts{CertType: "host", KeyID: c.Pick(r, []string{"host.example.com", "h1", ""}), Principals: genPrincipals(r, 3)}
 	k.SignBy, k.Window, k.TokKey, k.Aud, k.Iss, k.Key = "host", "ok", "cert", "ok", "ok", "ed"
 	k.SubSer = k.Op == "revoke"
+	if k.Op != "revoke" && r.Chance(1, 3) {
+		k.Via = "api"
+	}
 	k.Perms = c.Pick(r, []string{"crit", "crit", "ext", "both", "both", "none", "empty"})
 	// usually exactly one deviation from the valid request
 	for i := c.Pick(r, []int{0, 0, 0, 1, 1, 1, 1, 2, 3}); i > 0; i-- {
@@ -340,6 +367,21 @@ func corner() []*Case {
 		{Op: "sign", CA: "both", Prov: "jwk", Sub: "alice", RVA: 21600, RVB: 14400, Key: "ed"},
 		{Op: "sign", CA: "both", Prov: "oidc", Sub: "123", Email: "alice@example.com", RVA: 3600, RVB: 14400, Key: "ed"},
 		{Op: "sign", CA: "both", Prov: "nebula", NebHost: 0, Sub: "host-a.neb", TVB: 18000, RVB: 14400, Key: "ed"},
+		// through the real router: /ssh/sign with add-user key and identity CSR, /ssh/renew, /ssh/rekey
+		{Op: "sign", CA: "both", Prov: "jwk", Sub: "alice", Via: "api", Key: "ed"},
+		{Op: "sign", CA: "both", Prov: "jwk", Sub: "alice", Via: "api", AddUser: true, Key: "ed"},
+		{Op: "sign", CA: "both", Prov: "jwk", Sub: "alice", Via: "api", IDC: true, IDCN: "alice", IDNames: []string{"alice", "urn:uuid:6ba7b810-9dad-11d1-80b4-00c04fd430c8"}, Key: "ed"},
+		{Op: "sign", CA: "both", Prov: "jwk", Sub: "alice", Via: "api", IDC: true, IDCN: "alice", IDNames: []string{"evil.example.com"}, Key: "ed"},
+		{Op: "sign", CA: "both", Prov: "jwk", Sub: "alice", Via: "api", IDC: true, IDCN: "root", Key: "ed"},
+		{Op: "sign", CA: "both", Prov: "jwk", Sub: "alice", Via: "api", IDC: true, IDNames: []string{"https://evil.example.com/x"}, Key: "ed"},
+		{Op: "sign", CA: "both", Prov: "x5c", Sub: "alice", Via: "api", IDC: true, IDCN: "alice", AddUser: true, Key: "ed"},
+		{Op: "sign", CA: "both", Prov: "jwk", Sub: "alice", Via: "api", IDC: true, IDBadSig: true, Key: "ed"},
+		{Op: "sign", CA: "both", Prov: "jwk", Sub: "alice", Via: "api", Req: Opts{CertType: "server"}, Key: "ed"},
+		pop("renew", func(k *Case) { k.Via = "api" }),
+		pop("rekey", func(k *Case) { k.Via = "api" }),
+		pop("renew", func(k *Case) { k.Via, k.RevAPI = "api", true }),
+		pop("rekey", func(k *Case) { k.Via, k.Perms = "api", "crit" }),
+		pop("renew", func(k *Case) { k.Via, k.SignBy = "api", "user" }),
 		// add-user certificate
 		{Op: "sign", CA: "both", Prov: "jwk", Sub: "alice", AddUser: true, Key: "ed"},
 		{Op: "sign", CA: "both", Prov: "jwk", Sub: "alice", Tok: Opts{CertType: "user", Principals: []string{"alice", "bob"}}, AddUser: true, Key: "ed"},
